@@ -5,6 +5,7 @@ import Driver.Mesh
 import Driver.Csg
 import Driver.Dsu
 import Driver.HashT
+import Driver.CBind
 /-! `mvdriver`: reads one request per line on stdin, prints one answer per line.
 First token = engine. -/
 
@@ -17,6 +18,7 @@ def dispatch (line : String) : String :=
   | "csg" :: rest => Csg.handle rest
   | "dsu" :: rest => Dsu.handle rest
   | "hash" :: rest => HashT.handle rest
+  | "cbind" :: rest => CBindDrv.handle rest
   | _ => "bad-engine"
 
 partial def loop (h : IO.FS.Stream) (out : IO.FS.Stream) : IO Unit := do
